@@ -500,6 +500,42 @@ def ob_float():
         ch = np.concatenate(parts, axis=-1)
         if (not (np.abs(one - ch).max() <= 1e-9)):
             return {"chunked != one-shot": float(np.abs(one - ch).max())}
+        # generators are independent objects, also when one was obtained by copying another (copy.copy / copy.deepcopy, as the channel
+        # classes do): re-shaping one (new phases) and then drawing equal-sized blocks from both gives each its OWN model samples
+        import copy
+        for how in (copy.copy, copy.deepcopy):
+            g1 = fg.JakesSampleGenerator(Fd, Ts, L, shape, np.random.RandomState(case["seed"] + 5))
+            g1.generate_more_samples(16)
+            g2 = how(g1)
+            g2.shape = (2,) if shape is None or isinstance(shape, tuple) else 3
+            shp2 = tuple(g2.shape)
+            for _ in range(2):
+                for gg, sh in ((g1, shp), (g2, shp2)):
+                    p0 = int(round(gg._current_time / Ts)) if Ts > 0 else 0
+                    try:
+                        gg.generate_more_samples(16)
+                    except Exception as e:
+                        return {"copied generators: generate raised": repr(e)[:200], "copied with": how.__name__}
+                    hh = gg.get_samples()
+                    if hh.shape != sh + (16,):
+                        return {"copied generators: shape": list(hh.shape), "expected": list(sh + (16,)), "copied with": how.__name__}
+                    kk = p0 + np.arange(16)
+                    rf = _model(gg._phi_l, gg._psi_l, Fd, L, (kk * Ts).reshape((1,) * (len(sh) + 1) + (16,)))
+                    if (not (np.abs(hh - rf).max() <= 2 * np.pi * Fd * Ts * float(kk[-1]) * 1e-9 * math.sqrt(L) + 1e-9)):
+                        return {"copied generators disturb each other": float(np.abs(hh - rf).max()), "copied with": how.__name__,
+                                "which": "original" if gg is g1 else "copy"}
+        # request and skip sizes are numbers: numpy integer scalars of any width (block lengths read from an integer array) count like ints
+        ga = fg.JakesSampleGenerator(Fd, Ts, L, None, np.random.RandomState(case["seed"] + 9))
+        gb = fg.JakesSampleGenerator(Fd, Ts, L, None, np.random.RandomState(case["seed"] + 9))
+        for sk, dt in ((200, np.uint8), (100, np.uint8), (30000, np.int16), (30000, np.int16), (70000, np.int32), (5, np.int64), (250, np.uint16)):
+            ga.skip_samples_for_next_generation(dt(sk))
+            gb.skip_samples_for_next_generation(int(sk))
+            ga.generate_more_samples(dt(9))
+            gb.generate_more_samples(9)
+            xa, xb = ga.get_samples(), gb.get_samples()
+            if xa.shape != xb.shape or (not (np.abs(xa - xb).max() <= 1e-9)):
+                return {"sizes given as numpy integer scalars change the samples": np.dtype(dt).name, "skip": sk,
+                        "difference": float(np.abs(xa - xb).max()) if xa.shape == xb.shape else "shape"}
         return None
     return bounded(gen(), check)
 
